@@ -195,6 +195,31 @@ Proof.
 Qed.
 Print Assumptions C13_vectors_rotated_by_toroidal_angle.
 
+(* the same for EVERY finite (x, y), the symmetry axis included (where libm's atan2 of signed zeros gives no
+   rotation for x = +0 and half a turn for x = -0): (cos, sin) is always a rotation, the length is always
+   preserved, on the axis the wrapped function's vector at (r = 0, z) comes back unrotated / half-turned, and
+   off the axis the total mapping is the one of the previous theorem *)
+Theorem C13_vectors_on_axis_and_everywhere :
+  forall (sqrtQ : Q -> Q), (forall s, 0 <= s -> 0 <= sqrtQ s /\ sqrtQ s * sqrtQ s == s) ->
+  forall (f : Q -> Q -> vec) xneg x y z,
+  (let cs := toroidal_cs xneg x y (radius sqrtQ x y) in fst cs * fst cs + snd cs * snd cs == 1)
+  /\ dot (vector_axisym_total sqrtQ xneg f x y z) (vector_axisym_total sqrtQ xneg f x y z)
+     == dot (f (radius sqrtQ x y) z) (f (radius sqrtQ x y) z)
+  /\ (~ (x == 0 /\ y == 0) -> vector_axisym_total sqrtQ xneg f x y z = vector_axisym sqrtQ f x y z)
+  /\ (x == 0 -> y == 0 ->
+      radius sqrtQ x y == 0
+      /\ veq (vector_axisym_total sqrtQ false f x y z) (f (radius sqrtQ x y) z)
+      /\ (let '(a, b, c) := f (radius sqrtQ x y) z in veq (vector_axisym_total sqrtQ true f x y z) (- a, - b, c))).
+Proof.
+  intros sqrtQ H f xneg x y z.
+  split; [apply (toroidal_cs_unit sqrtQ H) |].
+  split; [apply (vector_axisym_total_length sqrtQ H) |].
+  split; [apply (vector_axisym_total_off_axis sqrtQ H) |].
+  intros Hx Hy. split; [apply (radius_on_axis sqrtQ H x y Hx Hy) |].
+  apply (vector_axisym_total_on_axis sqrtQ H f x y z Hx Hy).
+Qed.
+Print Assumptions C13_vectors_on_axis_and_everywhere.
+
 (* sample axes: n points, the i-th is a + i (b - a)/(n - 1): first a, last b, equal spacing; one point a for n = 1 *)
 Theorem C13_linspace_even_with_both_end_points :
   forall n a b, (1 <= n)%Z ->
